@@ -44,6 +44,7 @@ pub struct Model {
     pub failed: usize,   // ... of which write_all returned Err
     pub flushes: usize,
     pub flush_failed: usize,
+    pub flush_failed_at_shutdown: bool, // the flush of the batch that took Msg::Shutdown failed
     pub dirty: bool,      // a write_all since the last flush call
     pub shutdown_sent: bool,
     pub seen_at_shutdown: usize, // accepted count when Shutdown was enqueued
@@ -80,6 +81,7 @@ pub const FRESH: Model = Model {
     failed: 0,
     flushes: 0,
     flush_failed: 0,
+    flush_failed_at_shutdown: false,
     dirty: false,
     shutdown_sent: false,
     seen_at_shutdown: 0,
@@ -146,6 +148,9 @@ impl Write for Sink {
         m.dirty = false;
         if flush_fault() {
             m.flush_failed += 1;
+            if shutdown_taken() {
+                m.flush_failed_at_shutdown = true;
+            }
             return Err(io::Error::from(io::ErrorKind::Other));
         }
         Ok(())
@@ -156,6 +161,12 @@ impl Drop for Sink {
     fn drop(&mut self) {
         m().sink_dropped = true;
     }
+}
+
+/// the guard's Msg::Shutdown has been enqueued and is no longer in the queue: the worker took it
+fn shutdown_taken() -> bool {
+    let m = m();
+    m.shutdown_sent && guard().queued() == 0 && m.seen == m.accepted
 }
 
 fn guard() -> &'static v::VGuard {
@@ -246,7 +257,7 @@ pub fn on_yield(blocking: bool) {
 
 pub struct Outcome {
     pub reported_shutdown: bool,
-    /// the batch that took `Msg::Shutdown` ended in `Err` (failed flush): the worker does not report Shutdown
+    /// the batch that took `Msg::Shutdown` ended in `Err`: the worker would never report Shutdown (a violation)
     pub swallowed: bool,
 }
 
@@ -298,10 +309,10 @@ pub fn drive(worker: &mut v::VWorker<Sink>) -> Outcome {
                 break;
             }
             Err(_) => {
-                let m = m();
-                // TODO in the real loop: errors are ignored. If the failing batch had already taken
-                // Msg::Shutdown, the real loop would now block in recv() for ever.
-                if m.shutdown_sent && guard().queued() == 0 && m.seen == m.accepted {
+                // the real loop ignores errors and calls work() again. If the failing batch had already taken
+                // Msg::Shutdown the real loop would now block in recv() for ever (formerly finding
+                // flush_fault_swallows_shutdown, fixed in /repo 87b937a): stop and let check_end report it.
+                if shutdown_taken() {
                     out.swallowed = true;
                     break;
                 }
@@ -332,20 +343,15 @@ pub fn check_end(worker: v::VWorker<Sink>, out: &Outcome) {
     // flush was called after the last line and before the worker reported
     assert!(m.flushes >= 1);
     assert!(!m.dirty);
-    if out.reported_shutdown {
-        assert!(!out.swallowed);
-        // the rendezvous of WorkerGuard::drop with the end of the worker thread
-        assert!(!m.sink_dropped);
-        m.rendezvous = true;
-        let got = worker.finish();
-        assert!(got && m.rendezvous_ok);
-        assert!(m.sink_dropped);
-    } else {
-        // recorded role `flush_fault_swallows_shutdown`: only reachable through a failed flush
-        assert!(out.swallowed);
-        assert!(m.flush_failed > 0);
-        core::mem::forget(worker);
-    }
+    // once Msg::Shutdown was taken the worker reports Shutdown, whether or not the final flush failed
+    assert!(!out.swallowed);
+    assert!(out.reported_shutdown);
+    // the rendezvous of WorkerGuard::drop with the end of the worker thread, and the release of the writer
+    assert!(!m.sink_dropped);
+    m.rendezvous = true;
+    let got = worker.finish();
+    assert!(got && m.rendezvous_ok);
+    assert!(m.sink_dropped);
 }
 
 /// Between two schedules of one harness: drop every handle of the finished one and start from a fresh state.
@@ -395,9 +401,9 @@ fn c15_reach() {
 fn c15_flush_fault_at_shutdown() {
     let mut w = setup(2, 1, true, vec_of(&[2]), [false; MAXL], 1);
     let out = drive(&mut w);
-    kani::cover!(m().flush_failed == 1);
+    kani::cover!(m().flush_failed_at_shutdown);
     assert!(out.reported_shutdown);
-    core::mem::forget(w);
+    check_end(w, &out);
 }
 
 /// ErrorCounter saturates instead of wrapping (any start value through repeated drops is out of reach; the
